@@ -199,12 +199,21 @@ def parse_and_route(E):
     ft = E.lookup('rsocket/frame.py::FrameType').members[TYPES[E.path.choice(5, 'type')]]
     payload = E.call(E.lookup('rsocket/payload.py::Payload'), [b'd', E.fresh_bytes('md')])
     P = E.prove
-    before = dict(h.attrs)
+    def snap(v):
+        # containers are compared by content (a cache filled in place is a trace, too)
+        if isinstance(v, dict):
+            return ('dict', tuple((id(k), id(x)) for k, x in v.items()))
+        if isinstance(v, (list, tuple, set, frozenset)):
+            return (type(v).__name__, tuple(sorted(id(x) for x in v)))
+        if isinstance(v, SObj) and v.cls.name in ('deque',):
+            return ('deque', tuple(id(x) for x in v.attrs['items']))
+        return ('obj', id(v))
+    before = {k: snap(v) for k, v in h.attrs.items()}
 
     def stateless():
         # frame condition: a request leaves no trace on the handler object, so every request (any history) is decided
         # from the same state as the first one - the gate cannot be opened by an earlier, accepted request
-        return set(h.attrs) == set(before) and all(h.attrs[k] is before[k] for k in before)
+        return set(h.attrs) == set(before) and all(snap(h.attrs[k]) == before[k] for k in before)
     try:
         r = E.await_value(E.call(E.getattr(h, '_parse_and_route'), [ft, payload]))
     except PyExc as e:
@@ -217,8 +226,26 @@ def parse_and_route(E):
           pos is None or undecodable or (with_verifier and (not auth or rejected)))
         return
     E.cover('routed')
-    P('gate:handler_keeps_no_memory_between_requests', stateless())
     routes = log.of(router, 'route')
+    if not stateless():
+        # The handler remembers something from this (accepted) request.  Then the single-request contract no longer covers
+        # every history, so at least the histories of two requests are checked: whatever came first, a later request on the
+        # SAME route that carries no authentication entry, or one the verifier rejects, must not reach a route handler.
+        if with_verifier and pos is not None:
+            n_routes = len(routes)
+            second = E.path.choice(2, 'second-request')          # 0: rejected credentials, 1: no authentication entry
+            items2 = [it for it in cm.attrs['items'] if second == 0 or it is not au]
+            cm2 = E.call(E.lookup('rsocket/extensions/composite_metadata.py::CompositeMetadata'), [items2])
+            E.stubs['rsocket/request_handler.py::RequestHandler._parse_composite_metadata'] = lambda E_, f, a, k: cm2
+            log.returns[('callable', '__call__')] = lambda E_, o, m, a, k: (_ for _ in ()).throw(PyExc(E_.make_exc('Exception', 'rejected')))
+            try:
+                E.await_value(E.call(E.getattr(h, '_parse_and_route'), [ft, payload]))
+            except PyExc:
+                pass
+            P('gate:an_earlier_accepted_request_does_not_open_the_gate_for_a_later_one[same route, %s]'
+              % ('rejected credentials' if second == 0 else 'no authentication entry'), len(log.of(router, 'route')) == n_routes)
+        raise Unsupported('the routing handler keeps state between requests: only histories of two requests were checked '
+                          '(the contract assumes a stateless handler)')
     P('route:router_invoked_exactly_once_with_this_frame_type_payload_and_parsed_metadata',
       len(routes) == 1 and routes[0][2][0] is ft and routes[0][2][2] is payload and routes[0][2][3] is cm and r is routed)
     rstr = routes[0][2][1]
